@@ -1,6 +1,8 @@
 package scen
 
 import (
+	"time"
+	"bytes"
 	"bufio"
 	"fmt"
 	"io"
@@ -172,5 +174,36 @@ func (sw *svcWorld) wsDial(name, target, subprotocol string, hdr http.Header) (*
 	if subprotocol != "" {
 		h.Set("Sec-WebSocket-Protocol", subprotocol)
 	}
-	return websocket.NewClient(cc, u, h, 4096, 4096)
+	var nc net.Conn = cc
+	if sw.wsConnection != "" {
+		nc = &connHdrRewriter{Conn: cc, value: sw.wsConnection}
+	}
+	cc.SetDeadline(time.Now().Add(20 * time.Second)) // a handshake the server does not take for one may never be answered
+	ws, resp, err := websocket.NewClient(nc, u, h, 4096, 4096)
+	cc.SetDeadline(time.Time{})
+	if err != nil {
+		cc.Close() // whatever the server took the request for (it may be streaming an HTTP answer), this client is gone
+	}
+	return ws, resp, err
+}
+
+// connHdrRewriter replaces the Connection header of the handshake request the gorilla client writes
+// (it always writes "Connection: Upgrade") by the value a browser may send instead.
+type connHdrRewriter struct {
+	net.Conn
+	value string
+	done  bool
+}
+
+func (c *connHdrRewriter) Write(b []byte) (int, error) {
+	if !c.done {
+		c.done = true
+		if nb := bytes.Replace(b, []byte("Connection: Upgrade\r\n"), []byte("Connection: "+c.value+"\r\n"), 1); len(nb) != len(b) {
+			if _, err := c.Conn.Write(nb); err != nil {
+				return 0, err
+			}
+			return len(b), nil
+		}
+	}
+	return c.Conn.Write(b)
 }
